@@ -70,6 +70,9 @@ func (ex *Exec) verifyTop() {
 		if ax := heapRangeAxiom(name, h); first && !ax.IsTrue() {
 			vc.lateDecls = append(vc.lateDecls, "(assert "+ax.S+")")
 		}
+		if ax := heapRefAxiom(name, h, Term{"top@0", SInt}); first && !ax.IsTrue() {
+			vc.lateDecls = append(vc.lateDecls, "(assert "+ax.S+")")
+		}
 		return h
 	}
 	st.top = vc.declare("top@0", SInt)
